@@ -32,7 +32,7 @@ pub const SIZE_SENSITIVE: &[&str] = &[
     "repeat", "cycle", "take", "drop", "window", "group", "group'", "permutations", "combinations",
     "subsequences", "random_bytes", "str_radix", "int_radix", "gcd", "lcm", "factorial", "!", "b_spline",
     "rearrange", "round", "prefixes", "suffixes", "***", "&&&", "lazy_zip", "zip", "ziplongest", "merge",
-    "iterate", "lazy_map", "lazy_filter", "pairwise", "only", "sort", "unique", "sum", "product", "by",
+    "iterate", "lazy_map", "lazy_filter", "pairwise", "only", "sort", "unique", "sum", "product", "by", "×",
 ];
 
 pub fn global_names() -> &'static Vec<String> {
@@ -87,6 +87,8 @@ pub fn pool() -> Vec<(String, Ex, bool)> {
     v.push((Ex::Str(" -3/4 ".into()), false));
     v.push((Ex::Str("a,b,,c".into()), false));
     v.push((Ex::Str("(".into()), false));
+    v.push((Ex::Str("\u{d7ff}".into()), false));
+    v.push((Ex::Str("\u{e000}".into()), false));
     v.push((Ex::List(vec![]), false));
     v.push((Ex::List(vec![int(1)]), false));
     v.push((Ex::List(vec![int(3), int(1), int(2)]), false));
@@ -104,6 +106,9 @@ pub fn pool() -> Vec<(String, Ex, bool)> {
     v.push((Ex::Lambda(vec![lv("x")], Box::new(var("x"))), false));
     v.push((Ex::Lambda(vec![lv("x"), lv("y")], Box::new(bin(var("x"), "+", var("y")))), false));
     v.push((Ex::Lambda(vec![], Box::new(int(1))), false));
+    v.push((Ex::Lambda(vec![lv("x")], Box::new(bin(var("x"), ">", int(1)))), false));
+    v.push((Ex::Lambda(vec![lv("x")], Box::new(int(0))), false));
+    v.push((Ex::Lambda(vec![lv("x")], Box::new(Ex::Throw(Box::new(Ex::Str("cb".into()))))), false));
     v.push((var("len"), false));
     v.push((var("+"), false));
     v.push((var("int"), false));
@@ -227,6 +232,27 @@ pub fn generate_mode(seed: u64, index: u64, exhaustive: bool, inf: InfMode) -> F
         for i in 0..p {
             tuples.push(vec![i]);
         }
+    } else if part == 1 {
+        // every pair over a core sub-pool: null, small ints, a fraction, a float, strings, lists, a
+        // dict, a vector, bytes, closures
+        let core: Vec<usize> = pool
+            .iter()
+            .enumerate()
+            .filter(|(_, (_, e, _))| {
+                matches!(
+                    crate::ir::render(e).as_str(),
+                    "null" | "0" | "1" | "(0-1)" | "2" | "7" | "(1/2)" | "0.5" | "\"\"" | "\"abc\"" | "\"12\"" | "[]"
+                        | "[3, 1, 2]" | "[\"a\", \"b\"]" | "{1: 2, \"a\": null}" | "V(1, 2)" | "B(104, 105)"
+                        | "(\\x -> x)" | "(\\x, y -> (x + y))" | "to(1, 3)"
+                )
+            })
+            .map(|(i, _)| i)
+            .collect();
+        for a in core.iter() {
+            for b in core.iter() {
+                tuples.push(vec![*a, *b]);
+            }
+        }
     } else {
         for _ in 0..CHUNK {
             if rng.chance(2, 3) {
@@ -258,11 +284,12 @@ pub fn generate_mode(seed: u64, index: u64, exhaustive: bool, inf: InfMode) -> F
         let args: Vec<Ex> = t.iter().map(|i| var(&pool[*i].0)).collect();
         let c = Ex::Call(Box::new(var(&fname)), args);
         let wrapped = (n_calls % 2) == 1;
+        let must_terminate = !has_inf;
         if wrapped {
             let e = Ex::Try(Box::new(c), Box::new(lv("e")), Box::new(Ex::Str("caught".into())));
-            g.push_outcome_only("call-in-try", e, vec![], true);
+            g.push_outcome_only_t("call-in-try", e, vec![], true, must_terminate);
         } else {
-            g.push_outcome_only("call", c, vec![], false);
+            g.push_outcome_only_t("call", c, vec![], false, must_terminate);
         }
         n_calls += 1;
         if n_calls % 30 == 0 {
